@@ -198,9 +198,11 @@ def read_all(a, q, q1, ks, k1, others=(), cq=None):
 class Gen:
     """adaptive generator of histories (all choices from one seeded Random)"""
 
-    def __init__(self, seed):
+    def __init__(self, seed, bias=()):
         self.r = random.Random(seed)
         self.vc = 0
+        self.bias = list(bias)   # op kinds to exercise more (widened search for an unreadable site)
+        self.kept = {}           # step index -> ids of a slice object kept by the caller
 
     def val_rows(self, n, w):
         out = []
@@ -303,7 +305,7 @@ class Gen:
         w = (int(np.prod(st['tail'])) if st['tail'] else 1) * (st['T'] if st['ts'] else 1)
         kinds = ['SetData'] * 2 + ['Update'] * 4 + ['SliceWrite'] * 5 + ['SetFrame', 'SetIds',
                                                                         'Overwrite', 'OverwriteIds', 'SetAttr']
-        k = r.choice(kinds)
+        k = r.choice(kinds + self.bias * 6)
         if st['ts'] and k in ('SetFrame',):
             k = 'SetData'
         if k == 'SetData':
@@ -333,6 +335,14 @@ class Gen:
                 r.shuffle(new)
             return {'k': k, 'ids': new, 'rows': self.val_rows(len(new), w),
                     'via': r.choice(['attr', 'attrs'])}
+        if k == 'SliceWrite' and self.kept and r.random() < 0.4:
+            # write again through a slice object taken at an earlier step (the parent may have
+            # been updated / re-ordered / re-labelled in between): for the model this is a
+            # write to the ids the slice holds
+            j = r.choice(sorted(self.kept))
+            kid = self.kept[j]
+            cnt = len(kid) + (1 if r.random() < 0.05 else 0)
+            return {'k': k, 'sel': ['ByIds', list(kid)], 'rows': self.val_rows(cnt, w), 'kept': j}
         if k == 'SliceWrite':
             sk = r.choice(['ByIds'] * 4 + ['ById1', 'ByPos', 'ByPos', 'ByPos1'])
             if sk == 'ByIds':
@@ -370,9 +380,16 @@ class Gen:
         raise AssertionError(k)
 
 
+KEPT = {}          # step index -> slice object
+LAST = [None]      # slice object made by the op just applied
+NAMES = ['x', 'x']  # key the attribute is stored under, name the caller uses for it (an alias)
+
+
 def apply_op(A, o, st):
-    """apply one op to A['x']; updates the harness' idea of the row shape"""
-    a = A['x']
+    """apply one op to the attribute; updates the harness' idea of the row shape"""
+    a = A[NAMES[0]]
+    X = NAMES[1]
+    LAST[0] = None
     k = o['k']
     ts, T, tail = st['ts'], st['T'], st['tail']
     if k == 'SetData':
@@ -390,22 +407,26 @@ def apply_op(A, o, st):
     elif k == 'Update':
         arr = to_arr(o['rows'], tail, ts, T)
         if o.get('via') == 'attrs':
-            A.update_data(o['ids'], {'x': arr}, allow_overwrite=True)
+            A.update_data(o['ids'], {X: arr}, allow_overwrite=True)
         else:
             a.update(o['ids'], arr, allow_overwrite=True)
     elif k == 'SliceWrite':
         sk, sel = o['sel']
-        s = a.loc[sel] if sk in ('ByIds', 'ById1') else a.iloc[sel]
+        if o.get('kept') in KEPT:
+            s = KEPT[o['kept']]
+        else:
+            s = a.loc[sel] if sk in ('ByIds', 'ById1') else a.iloc[sel]
+        LAST[0] = s
         s.data = to_arr(o['rows'], tail, ts, T)
     elif k == 'Overwrite':
-        A.overwrite('x', to_arr(o['rows'], tail, ts, T))
+        A.overwrite(X, to_arr(o['rows'], tail, ts, T))
     elif k == 'OverwriteIds':
         w = len(o['rows'][0]) if o['rows'] else 1
-        A.overwrite('x', np.array(o['rows'], dtype=float).astype(DTYPE[0]).reshape(len(o['rows']), w), ids=o['ids'])
+        A.overwrite(X, np.array(o['rows'], dtype=float).astype(DTYPE[0]).reshape(len(o['rows']), w), ids=o['ids'])
         st.update(ts=False, T=1, tail=[w])
     elif k == 'SetAttr':
         w = len(o['rows'][0]) if o['rows'] else 1
-        A.set_attribute_data('x', np.array(o['rows'], dtype=float).astype(DTYPE[0]).reshape(len(o['rows']), w),
+        A.set_attribute_data(X, np.array(o['rows'], dtype=float).astype(DTYPE[0]).reshape(len(o['rows']), w),
                              allow_overwrite=True)
         st.update(ts=False, T=1, tail=[w])
     else:
@@ -413,18 +434,24 @@ def apply_op(A, o, st):
 
 
 def run_case(case):
-    g = Gen(case['seed'])
+    g = Gen(case['seed'], case.get('bias') or ())
     init = case.get('init') or g.init()
+    if 'init' not in case and g.r.random() < 0.3:
+        init['names'] = ['INITIAL_TEMPERATURE', 't_init']     # stored under the canonical name, used by alias
     st = {'tail': init['tail'], 'ts': init['ts'], 'T': init['T'], 'mode': init.get('mode', 'sparse')}
     out = {'id': case['id'], 'init': init, 'steps': []}
     DTYPE[0] = init.get('dtype', 'float64')
+    NAMES[:] = init.get('names') or ['x', 'x']
+    KEPT.clear()
+    K = NAMES[0]
     init.setdefault('others', [])
     with contextlib.redirect_stdout(io.StringIO()):
         others = [FEMAttribute(f'm{j}', np.array(o['ids']), to_arr(o['rows'], o['tail'], o['ts'], o['T']),
                                silent=True, time_series=o['ts']) for j, o in enumerate(init['others'])]
-        a = FEMAttribute('x', np.array(init['ids']), to_arr(init['rows'], st['tail'], st['ts'], st['T']),
+        a = FEMAttribute(K, np.array(init['ids']), to_arr(init['rows'], st['tail'], st['ts'], st['T']),
                          silent=True, generate_id2index=init['gen'], time_series=init['ts'])
-        A = FEMAttributes({'x': a})
+        A = FEMAttributes({K: a})
+    keys0 = sorted(A.keys())
     fixed_ops = case.get('ops')
     fixed_q = case.get('queries')
     n_ops = len(fixed_ops) if fixed_ops is not None else case['n_ops']
@@ -433,14 +460,15 @@ def run_case(case):
         if fixed_q is not None:
             q4 = list(fixed_q[i])
             return q4[:4] + [others, q4[4] if len(q4) > 4 else q4[0]]
-        cur = [int(x) for x in A['x'].ids]
+        cur = [int(x) for x in A[K].ids]
         q4 = g.query(cur, st['mode'])
         return list(q4) + [others, g.cquery(cur, init['others'], q4[0])]
-    out['obs0'] = read_all(A['x'], *q_for(0))
+    out['obs0'] = read_all(A[K], *q_for(0))
     for i in range(n_ops):
-        ids = [int(x) for x in A['x'].ids]
+        ids = [int(x) for x in A[K].ids]
         o = fixed_ops[i] if fixed_ops is not None else g.op(ids, st)
         st_before = dict(st)
+        obj_before = A[K]
         raised = None
         try:
             with contextlib.redirect_stdout(io.StringIO()):
@@ -449,51 +477,80 @@ def run_case(case):
             raised = type(e).__name__
             st.clear()
             st.update(st_before)
-        ob = read_all(A['x'], *q_for(i + 1))
+        # slice objects the caller keeps: usable as long as the attribute object and its row
+        # shape are the ones they were taken from
+        if A[K] is not obj_before or st['tail'] != st_before['tail']:
+            KEPT.clear()
+            g.kept.clear()
+        elif raised is None and LAST[0] is not None and 'kept' not in o:
+            sk, sel = o['sel']
+            try:
+                kid = {'ByIds': lambda: list(sel), 'ById1': lambda: [sel], 'ByPos': lambda: [ids[k] for k in sel],
+                       'ByPos1': lambda: [ids[sel]]}[sk]()
+                if len(KEPT) >= 3:
+                    old = min(KEPT)
+                    KEPT.pop(old)
+                    g.kept.pop(old, None)
+                KEPT[i] = LAST[0]
+                g.kept[i] = kid
+            except IndexError:
+                pass
+        ob = read_all(A[K], *q_for(i + 1))
         ob['raised'] = raised
+        if sorted(A.keys()) != keys0 or len(A) != len(keys0):
+            ob['flags'].append('collection-keys-changed')
         out['steps'].append({'op': o, 'obs': ob})
     return out
 
 
-ELEMENT_TYPES = FEMElementalAttribute.ELEMENT_TYPES
+def eblock(t, ids, rows):
+    """one block as a reader would hand it over: a 2-D integer array, an array of
+    per-element arrays for the ragged type"""
+    if t == 'polyhedron' or len({len(r) for r in rows}) > 1:
+        data = np.empty(len(rows), dtype=object)
+        data[:] = [np.array(r, dtype=int) for r in rows]
+    else:
+        data = np.array(rows, dtype=int)
+    return FEMAttribute(t, np.array(ids), data, silent=True)
 
 
 def run_ecase(case):
     with contextlib.redirect_stdout(io.StringIO()):
-        e = FEMElementalAttribute('ELEMENT', {
-            t: FEMAttribute(t, np.array(ids), np.array(rows, dtype=int), silent=True)
-            for t, ids, rows in case['blocks']})
-        for t, ids, rows in case.get('updates', []):
-            e.update({t: FEMAttribute(t, np.array(ids), np.array(rows, dtype=int), silent=True)})
+        try:
+            e = FEMElementalAttribute('ELEMENT', {t: eblock(t, ids, rows) for t, ids, rows in case['blocks']})
+            for u in case.get('updates', []):
+                e.update({t: eblock(t, ids, rows) for t, ids, rows in u})
+        except Exception as ex:     # noqa: raise / no-raise is compared with the model
+            return {'id': case['id'], 'raised': True, 'exception': type(ex).__name__}
 
         def summ(x):
             return {'ids': [int(i) for i in x.ids],
-                    'types': [ELEMENT_TYPES.index(t) for t in x.types],
+                    'types': [str(t) for t in x.types],
                     'data': [[int(v) for v in r] for r in x.data],
                     'id2index': [[int(i), int(k)] for i, k in zip(x.id2index.index, x.id2index.values[:, 0])],
-                    'ids_types': [ELEMENT_TYPES.index(t) for t in x.ids_types.values[:, 0]],
-                    'ids_types_index': [int(i) for i in x.ids_types.index],
+                    'ids_types': [[int(i), str(t)] for i, t in zip(x.ids_types.index, x.ids_types.values[:, 0])],
                     'element_type': x.element_type,
-                    'dict_type_ids': {t: [int(i) for i in v] for t, v in x.dict_type_ids.items()}}
-        out = {'id': case['id'], 'summary': summ(e)}
+                    'keys': [str(k) for k in x.keys()],
+                    'unique_types': sorted(str(t) for t in x.unique_types),
+                    'dict_type_ids': [[str(t), [int(i) for i in v]] for t, v in x.dict_type_ids.items()]}
+        out = {'id': case['id'], 'raised': False, 'summary': summ(e)}
         f = e.filter_with_ids(np.array(case['q']))
-        out['filter_blocks'] = [[ELEMENT_TYPES.index(t), [[int(i), [int(v) for v in r]]
-                                                         for i, r in zip(b.ids, b.data)]]
+        out['filter_blocks'] = [[str(t), [[int(i), [int(v) for v in r]] for i, r in zip(b.ids, b.data)]]
                                 for t, b in f.items()]
         out['filter_summary'] = summ(f)
         # generate_elemental_attribute: values handed in by id (in the order of case['g'])
         gids = case.get('g') or []
         if gids:
             g = e.generate_elemental_attribute('v', np.array(gids), np.array([[float(i % 100003 * 3 + 1)] for i in gids]))
-            out['generated'] = [[ELEMENT_TYPES.index(t), [[int(i), [num(v) for v in np.ravel(r)]]
-                                                         for i, r in zip(b.ids, b.data)]] for t, b in g.items()]
+            out['generated'] = [[str(t), [[int(i), [num(v) for v in np.ravel(r)]]
+                                          for i, r in zip(b.ids, b.data)]] for t, b in g.items()]
             out['generated_summary_ids'] = [int(i) for i in g.ids]
     return out
 
 
 def main():
     spec = json.loads(sys.stdin.read())
-    res = {'cases': [], 'ecases': []}
+    res = {'cases': [], 'ecases': [], 'element_types': [str(t) for t in FEMElementalAttribute.ELEMENT_TYPES]}
     for c in spec.get('cases', []):
         try:
             res['cases'].append(run_case(c))
